@@ -204,6 +204,58 @@ def run(chk, n):
         chk.extra["strata"][f"random_async_{kn}"] = len(cases)
 
 
+# ----------------------------------------------------------------------------- FastEnforcer (added after the third seeding wave)
+_FAST = {}
+
+
+def fast_kwargs(order):
+    import casbin
+    from casbin.model import FastModel
+    return dict(enforcer_cls=casbin.FastEnforcer, enforcer_kwargs=dict(cache_key_order=list(order)),
+                model_factory=lambda: FastModel(list(order)), sort_p=True)
+
+
+def fast_spec(order):
+    """the same SPEC on a FastEnforcer with a cache-key order: its permission rules live in a two-level index whose
+    iteration order is unspecified, so the in-memory p rules (mgmt.Impl sort_p) and the p rows a save_policy wrote are
+    compared as sorted lists"""
+    order = tuple(order)
+    if order not in _FAST:
+        def sc(kind, rows, lf, ops, obs, impl):
+            canon = [o[:6] + [sorted([x for x in o[6] if x[0] == 0]) + [x for x in o[6] if x[0] != 0]] for o in obs]
+            return reload_check(kind, rows, lf, ops, canon, impl)
+        sc.case_extra = dict(enforcer="FastEnforcer", cache_key_order=list(order))
+        _FAST[order] = sc
+    return _FAST[order]
+
+
+def fast_keep(op):
+    # only calls whose result does not depend on the iteration order of the index
+    return op[0] < 50 or op[0] in (50, 54, 55, 56, 59) or (op[0] in (52, 53) and op[1] != 0)
+
+
+def run_fast(chk, n):
+    """FastEnforcer (cache_key_order given) with the recording adapter: its in-memory store is a separate container
+    (casbin/model/policy_fast.py) behind the same management calls"""
+    import itertools
+    rng = chk.rng
+    for kn, fields in (("acl", [0, 1, 2]), ("rbac", [1, 2])):
+        total = 0
+        for order in itertools.permutations(fields, 2):
+            cases = []
+            for kind, rows, lf, ops in make_cases(rng, kn, n):
+                cases.append((kind, rows, lf, [o for o in ops if fast_keep(o)]))
+            by_kind = {}
+            for kind, rows, lf, ops in cases:
+                by_kind.setdefault(kind.watcher, (kind, []))[1].append((rows, lf, ops))
+            for w, (kind, cs) in by_kind.items():
+                mgmt.run_cases(chk, kind, cs, fast_spec(order), label=f"random-fast-{kn}-key{order[0]}{order[1]}",
+                               impl_kwargs=fast_kwargs(order), compare_model=False,
+                               key_fn=lambda k, r, o, _o=order: ("fast", _o, k.name, repr([x for x in o if x[0] < 50])))
+            total += len(cases)
+        chk.extra.setdefault("strata", {})[f"random_fast_{kn}"] = total
+
+
 def reload_check_async(kind, rows, lf, ops, obs, impl):
     return reload_check(kind, rows, lf, ops, obs, impl)
 
@@ -216,7 +268,8 @@ def main():
     chk.rule = ("management histories (single/batch/filtered/update/update_filtered, RBAC-API wrappers, valid and rejected "
                 "calls) against a recording in-memory adapter implementing the adapter, batch-adapter and update-adapter "
                 "interfaces; 25% of the histories run with auto-save off and end in save_policy; every history ends in "
-                "probe + load_policy + probe; the same on the AsyncEnforcer (every call awaited) for ACL / RBAC / domain models; "
+                "probe + load_policy + probe; the same on the AsyncEnforcer (every call awaited) for ACL / RBAC / domain models "
+                "and on a FastEnforcer with every admissible 2-field cache-key order (6 on ACL, 2 on RBAC models); "
                 "non-trivial = at least one mutating call; distinct by (kind, mutating calls)")
     chk.assumptions = ["the adapter is faithful: it applies each call to its rows as Mgmt.apply_acall does and returns None",
                        "clear_policy is memory-only by design; histories here contain none"]
@@ -225,16 +278,23 @@ def main():
     if chk.replay_file:
         import json
         c = (json.load(open(chk.replay_file)).get("case") or {})
+        if c.get("enforcer") == "FastEnforcer":
+            chk.oracle = None      # implementation-level stratum (the index order of FastPolicy is not the model's)
+            return mgmt.replay_case(chk, fast_spec(c["cache_key_order"]), impl_kwargs=fast_kwargs(c["cache_key_order"]))
         if c.get("enforcer") == "AsyncEnforcer":
             from ..async_facade import AsyncFacade
             return mgmt.replay_case(chk, reload_check_async, impl_kwargs=dict(enforcer_cls=AsyncFacade))
         return mgmt.replay_case(chk, reload_check)
     if chk.tier == "thorough":
         run(chk, 1500)
+        run_fast(chk, 250)
     else:
         run(chk, 150)
+        run_fast(chk, 25)
         if (chk.broken() or chk.anchor_changed) and not chk.spec_failures:
             run(chk, 800)
+            if not chk.spec_failures:
+                run_fast(chk, 120)
     chk.finish()
 
 
